@@ -122,7 +122,7 @@ class Chain:
         s.fnlist = ['w_%s -> %s' % (fname, s.fn.body.strip().replace('\n', ' ')[:160])]
         s.binfo = bounds + '; ll=' + U.ll_sha()
         s.vars = [t for row in s.res.ins for t in row]
-        if witness: S.prove(s.name + '.witness', z3.BoolVal(False), s.base + (list(witness_at(s.res.ins)) if witness_at else []),       # witness_at: a point at which the hypotheses are satisfiable
+        if witness and not S.pins: S.prove(s.name + '.witness', z3.BoolVal(False), s.base + (list(witness_at(s.res.ins)) if witness_at else []),       # witness_at: a point at which the hypotheses are satisfiable
                              timeout=S.cap(20, 60), kind='witness', functions=s.fnlist, bounds=s.binfo, expect='sat', mandatory=False)
     def sqrt_ax(s, k):
         """the defining axiom of the k-th executed square root: (argument, variable, [variable >= 0, variable^2 == argument])"""
@@ -220,11 +220,11 @@ class Chain:
         for label, g in spec(s.i, s.o):
             rc = (recipes or {}).get(label, {})
             s._final('%s.%s' % (s.name, label), goal_term(g), 'spec', rc.get('use', ()), rc.get('hyps', ()), rc.get('gen', ()), (spec, label), timeout, solver, rgoal=g if isinstance(g, _RGoal) else None)
-    def twins(s, mutant):
-        """deliberately wrong goals that must be satisfiable (thorough tier): guards against vacuous hypotheses"""
+    def twins(s, mutant, at=None):
+        """deliberately wrong goals that must be refutable (thorough tier): guards against vacuous hypotheses.  at(i): optional point / slice in which the refutation is searched"""
         if mutant is None or s.S.quick: return
         for label, g in mutant(s.i, s.o):
-            s.S.prove('%s.twin.%s' % (s.name, label), goal_term(g), s.base, timeout=s.tm, solver='z3', kind='mutant-twin', functions=s.fnlist, bounds=s.binfo, expect='sat', mandatory=False, vars_=s.vars)
+            s.S.prove('%s.twin.%s' % (s.name, label), goal_term(g), s.base + (list(at(s.i)) if at else []), timeout=s.S.cap(30, 60), solver='z3', kind='mutant-twin', functions=s.fnlist, bounds=s.binfo, expect='sat', mandatory=False, vars_=s.vars)
     def side(s, recipe=None, timeout=None, solver='nra'):
         """the executor's own obligations (sqrt of a negative, division by zero ...), one by one; recipe(kind, descr, cond, k) -> dict(use, hyps, gen) | None"""
         for k, (kind, cond, d) in enumerate(s.res.obligations):
@@ -396,6 +396,7 @@ def job_angle(t, L):
         if C.res is not None:
             cs_lemma(C, C.i[0], C.i[1]); C.side()
             C.goals(lambda i, o: [('acos-of-dot', REq(o[0][0].r, acos_of(rdot(i[0], i[1]))))], {'acos-of-dot': dict(use=['cauchy-schwarz'], hyps='base')})
+            C.twins(lambda i, o: [('m', REq(o[0][0].r, -acos_of(rdot(i[0], i[1]))))], at=lambda i: [x == (1 if k == 0 else 0) for k, x in enumerate(i[0])] + [y == (-1 if k == 0 else 0) for k, y in enumerate(i[1])])
     return run
 def job_gtx3(t):
     def run(S):
@@ -414,6 +415,7 @@ def job_gtx3(t):
             if C.res is not None:
                 cs_lemma(C, C.i[0], C.i[1]); C.side()
                 C.goals(sp_, {'signed-acos': dict(use=['cauchy-schwarz'], hyps='base')})
+                if fn_ == 'oangle2_': C.twins(lambda i, o: [('m', REq(o[0][0].r, z3.If(i[0][0] * i[1][1] - i[0][1] * i[1][0] < 0, acos_of(rdot(i[0], i[1])), -acos_of(rdot(i[0], i[1])))))])
         # cross, exterior and mixed product
         def cspec(i, o):
             a_, b_ = i; c_ = R(o[0]); c2 = R(o[1]); dt = rcross(a_, b_)
@@ -452,6 +454,7 @@ def job_gtx3(t):
             C.side(lambda kind, dsc, cond, k: dict(use=['n.arg', 'Wpos'], gen=[A, W]) if 'sqrt' in dsc else dict(use=['n.spos']))
             C.goals(ov, {'unit': dict(use=['n.unit']),
                          'towards-x': dict(use=['rx', 'wx', 'Wpos', 'n.spos'], hyps=C.pre[:1], gen=[rx, wx, W, dd, yy])})
+            C.twins(lambda i, o: [('m', REq(rdot(R(o[0]), i[0]), 0))])
         # triangleNormal
         def tn(i, o):
             p1, p2, p3 = i; r = R(o[0]); e1 = rsub(p2, p1); e2 = rsub(p3, p1)
@@ -463,6 +466,7 @@ def job_gtx3(t):
             along(C, 'n', r, V, sv, V, 'rV')
             C.side(lambda kind, dsc, cond, k: dict(use=['n.arg'], hyps=C.pre, gen=[A, VV]) if 'sqrt' in dsc else dict(use=['n.spos']))
             C.goals(tn, {'unit': dict(use=['n.unit']), 'right-handed': dict(use=['rV', 'n.spos'], hyps=C.pre, gen=[rdot(r, V), VV])})
+            C.twins(lambda i, o: [('m', RGoal('lt', rdot(R(o[0]), rcross(rsub(i[1], i[0]), rsub(i[2], i[0]))), 0))], at=C.slices[0])
         # closestPointOnLine = a + clamp(dot(p-a, b-a)/|b-a|^2, 0, 1) (b-a)
         for nm, L in (('closest3_', 3), ('closest2_', 2)):
             def cp(i, o, L=L):
@@ -681,7 +685,7 @@ def fp_check(S, fname, spec, pre=None, *, name, timeout, solver='z3', bounds='',
     to sparse input SLICES (most components +0) in which a counterexample is small enough to be found - a model is a genuine counterexample of the unrestricted
     obligation and is replayed natively like any other.  A restriction is never used to prove anything."""
     SQRT_CONSTS.clear()
-    res = S.check_fn(U, fname, None, pre, timeout=timeout, solver=solver, name=name, bounds=bounds, witness=False, side=side, validate=validate, mutant=mutant)
+    res = S.check_fn(U, fname, None, pre, timeout=timeout, solver=solver, name=name, bounds=bounds, witness=False, side=side, validate=validate)
     if res is None: return None
     fn = U.fns[fname]; p = pre(res.ins) if pre else []
     hyps = input_wellformed(fn, res.ins) + list(p if isinstance(p, (list, tuple)) else [p]) + res.axioms + pin_hyps(S, name, res.ins)
@@ -717,6 +721,9 @@ def fp_check(S, fname, spec, pre=None, *, name, timeout, solver='z3', bounds='',
             rec['status'] = 'inconclusive' if verdict is None else 'inconclusive(cex not reproduced)'
             if verdict is not None: rec.update(replay=verdict, replay_info=info)
             S.inconclusive.append(oname + ('' if verdict is None else ' [counterexample not reproduced natively: ' + verdict + ']')); S.c12_fail = getattr(S, 'c12_fail', 0) + 1
+    if mutant is not None and not S.quick:      # mutant twins: deliberately wrong goals must be refutable; searched inside the first slice, where the solver finds the refutation in seconds
+        for label, g in mutant(res.ins, res.outs):
+            S.prove('%s.twin.%s' % (name, label), g, hyps + facts + (slices[0][1](res.ins) if slices else []), timeout=timeout, solver=solver, kind='mutant-twin', functions=fnlist, bounds=binfo, expect='sat', mandatory=False, vars_=vars_)
     return res
 def zero_tail(rows, keep=1):
     """slice: all but the first `keep` components of the listed input vectors are +0"""
@@ -783,7 +790,7 @@ def job_fp_scalar(t):
     return run
 
 def jobs(tier):
-    q = tier == 'quick'; J = []
+    J = []
     for t in FT:
         for L in (1, 2, 3, 4):
             J.append(('core_real_v%d_%s' % (L, t), job_core_real(t, L)))
